@@ -3,11 +3,19 @@
    Proved for the tokenizer model (single-step facts): punctuation characters are one token each,
    `::` is one token, a stray character / lone slash / newline inside an attribute is a lexical
    error at its own byte index, whitespace and comments are skipped (C16.v).
-   NOT proved: C08_spec (tokenize src = lex_spec src for an independent maximal-munch
-   specification); decided per input by the check, which compares the crate's tokens (through the
-   tokenize hook) with oracles.lex_spec and with the model on every case. *)
+   AND the full statement, for every string: tokenize src = spec (S |src|) 0 src
+   (C08_tokenizer_is_the_lexical_specification), where `spec` (Lex/Spec.v) is the documented
+   rules written as a scanner that reads one whole lexeme at a time by maximal munch and knows
+   nothing of the tokenizer's states: skip Unicode whitespace and `//` comments; an identifier is
+   [A-Za-z_][A-Za-z0-9_]* or the reserved word it spells; `$`+identifier is a terminal identifier
+   (a reserved word there is an error reported just past it); `::` before `:`; the single-character
+   punctuation; `#[`...up to its closing bracket on the same line with brackets matching in kind;
+   anything else is a lexical error at that character, with its byte index.  Equality includes the
+   error value and every byte position.
+   The crate is tied to the model by the check, which also compares the crate's tokens (through
+   the tokenize hook) with the independent Python oracle oracles.lex_spec on every case. *)
 From Coq Require Import List NArith.
-From Kiki Require Import Base.Ord Base.Chars Data Lex.Model Lex.Proofs.
+From Kiki Require Import Base.Ord Base.Chars Data Lex.Model Lex.Proofs Lex.Spec.
 
 Theorem C08_punctuation_is_one_token : forall src t c i mk,
   tz_state t = LMain -> single_char_punctuation c = Some mk -> c <> ch ":" ->
@@ -32,7 +40,20 @@ Theorem C08_newline_inside_attribute_is_an_error : forall src t s n e i,
   tz_state t = LAttr s n e -> handle_char src t 10%N i = Err (ELex i (Some 10%N)).
 Proof. exact newline_inside_attribute_is_an_error. Qed.
 
+Theorem C08_tokenizer_is_the_lexical_specification : forall src, tokenize src = spec (S (length src)) 0 src.
+Proof. exact tokenize_is_spec. Qed.
+
+(* the specification on a text that uses every token class and a multi-byte character *)
+Example C08_spec_on_a_sample :
+  lex 0 (s2l "start A // c
+#[d(x)] struct $Ab::_:,") =
+  Ok [TStartKw 0; TIdent {| id_name := s2l "A"; id_pos := 6 |};
+      TOuterAttribute {| at_src := s2l "#[d(x)]"; at_pos := 13 |}; TStructKw 21;
+      TTerminalIdent {| ti_name := s2l "Ab"; ti_dpos := 29 |}; TDoubleColon 31; TUnderscore 33; TColon 34; TComma 35].
+Proof. vm_compute. reflexivity. Qed.
+
 Print Assumptions C08_punctuation_is_one_token.
+Print Assumptions C08_tokenizer_is_the_lexical_specification.
 Print Assumptions C08_double_colon_is_one_token.
 Print Assumptions C08_stray_character_is_a_lexical_error.
 Print Assumptions C08_lone_slash_is_an_error.
